@@ -288,7 +288,17 @@ class _SymNum:
         raise OutOfReach("hash of a symbolic number (used as key of a concrete dict/set)")
 
     def __index__(self):
-        raise OutOfReach("symbolic number used as a concrete index/length")
+        # a symbolic integer used where CPython needs a machine index (subscript of a concrete list, slice bound,
+        # repetition count): concretised by forking over the small values -8..16; a path on which the value can lie
+        # outside that window stays OUT-OF-REACH, as before (never a pass)
+        if not isinstance(self, SymInt):
+            raise OutOfReach("symbolic real used as a concrete index/length")
+        vals = list(range(0, 17)) + list(range(-1, -9, -1))
+        conds = [self.t == v for v in vals] + [z3.And(*[self.t != v for v in vals])]
+        k = _c().choose(conds, site="index")
+        if k == len(vals):
+            raise OutOfReach("symbolic number used as a concrete index/length (value may lie outside -8..16)")
+        return vals[k]
 
     def __format__(self, spec):
         return MARK
